@@ -433,9 +433,36 @@ static void wide_row_case(uint64_t idx, void *vctx)
     static const int WD[10] = { 255, 256, 257, 300, 511, 513, 769, 1025, 2049, 2731 };
     static const pixman_format_code_t fm[4] = { PIXMAN_a8r8g8b8, PIXMAN_r5g6b5, PIXMAN_a8, PIXMAN_a2r10g10b10 };
     static const pixman_format_code_t afm[3] = { PIXMAN_a8, PIXMAN_a1, PIXMAN_a8r8g8b8 };
-    int dims[6] = { 10, 4, 4, 3, 2, 2 }, d[6];
+    int dims[6] = { 10, 5, 4, 3, 2, 2 }, d[6];
     vf_decode(idx, dims, 6, d);
     int W = WD[d[0]], role = d[1], H = d[5] ? 2 : 1, place = d[4];
+    if (role == 4) {
+        /* role 4: the image as a scaled source with a repeat mode; x scale 1/2 and 2 with translations that put samples exactly on the centre of the
+         * last column / on its right edge: the scaled scanline fetchers read pairs (x, x+1) and must take the second from the repeat, not from storage */
+        static const pixman_repeat_t rp[3] = { PIXMAN_REPEAT_NORMAL, PIXMAN_REPEAT_PAD, PIXMAN_REPEAT_REFLECT };
+        static const int32_t TX[5] = { 0, 0x4000, 0x8000, -0x4000, 0x10000 - 1 };
+        gimg_t a = make_guarded(fm[d[2]], W, H, d[5] ? 2 : 0, place, idx + 3);
+        gimg_t b = make_guarded(PIXMAN_a8r8g8b8, 2 * W + 6, H, 0, place, 17);
+        gimg_t b16 = make_guarded(PIXMAN_r5g6b5, 2 * W + 6, H, 0, place, 19);
+        pixman_image_set_repeat(a.img, rp[d[3]]);
+        static const int LC[2] = { PH_CFG_DEFAULT, PH_CFG_GENERAL };
+        uint64_t n = 0;
+        for (int ci = 0; ci < 2; ci++) for (int fl = 0; fl < 2; fl++) for (int sc = 0; sc < 2; sc++) for (int ti = 0; ti < 5; ti++) for (int o = 0; o < 2; o++) {
+            ph_set_cfg(LC[ci]);
+            pixman_transform_t t; pixman_transform_init_identity(&t);
+            t.matrix[0][0] = sc ? 0x20000 : 0x8000; t.matrix[0][2] = TX[ti]; t.matrix[1][2] = (ti & 1) ? 0x8000 : 0;
+            pixman_image_set_transform(a.img, &t);
+            pixman_image_set_filter(a.img, fl ? PIXMAN_FILTER_BILINEAR : PIXMAN_FILTER_NEAREST, NULL, 0);
+            pixman_image_composite32(o ? PIXMAN_OP_OVER : PIXMAN_OP_SRC, a.img, NULL, (ti & 2) ? b16.img : b.img, -1, 0, 0, 0, 0, 0, sc ? W / 2 + 3 : 2 * W + 6, H);
+            n++;
+        }
+        vf_count_libcalls(n);
+        uint64_t h = vf_mix(vf_hash64(b.g.lo, b.g.size, 1), vf_hash64(b16.g.lo, b16.g.size, 3));
+        free_guarded(&a); free_guarded(&b); free_guarded(&b16);
+        vf_count_eval(1); vf_count_nontrivial(1);
+        if (!vf_in_confirm) vf_outcome(h);
+        return;
+    }
     /* role 0: destination with an alpha map; 1: source with an alpha map; 2: plain source and destination; 3: the image as mask of a solid */
     gimg_t a = make_guarded(fm[d[2]], W, H, d[5] ? 2 : 0, place, idx + 3);           /* two-row images: negative stride, so row 0 is the one that ends the storage */
     gimg_t map = make_guarded(afm[d[3]], W, H, d[5] ? 2 : 0, place, idx + 7);
@@ -659,7 +686,7 @@ int main(int argc, char **argv)
     vf_space_run("rows-that-fill-their-words-exactly", (uint64_t)2 * 4 * 6 * 3 * 2 * 3 * 5, full_row_case, NULL);
     vf_space_run("rotations-covering-the-source-tightly", (uint64_t)2 * 6 * 6 * 6 * 4 * 4 * 2, tight_rot_case, NULL);
     vf_space_run("alpha-maps-of-other-sizes", (uint64_t)2 * 4 * 4 * 3 * 4 * 4 * 6 * 6, amap_case, NULL);
-    vf_space_run("rows-wider-than-the-stack-scanline-buffers", (uint64_t)10 * 4 * 4 * 3 * 2 * 2, wide_row_case, NULL);
+    vf_space_run("rows-wider-than-the-stack-scanline-buffers", (uint64_t)10 * 5 * 4 * 3 * 2 * 2, wide_row_case, NULL);
     vf_space_run("same-shape-copies-between-views", (uint64_t)6 * 4 * 3 * NCFG_LIST * 2, copy_case, NULL);
     vf_space_run("glyph-positions", (uint64_t)14 * 14 * 3 * 2 * 3, glyph_case, NULL);
     vf_space_run("create-bits-sizes", 9 * 9 * 6, create_case, NULL);
